@@ -178,9 +178,103 @@ func zeroValue(t types.Type) Value {
 	return OpaqueV{What: "zero " + t.String()}
 }
 
+// flatArrays enables the flattened symbolic representation of long arrays of aggregates
+// (one Int->Int array indexed by element*leafCount+leaf); off while package initialisers run.
+var flatArrays = true
+
+const flatThreshold = 64
+
+func isAggType(t types.Type) bool {
+	switch t.Underlying().(type) {
+	case *types.Array, *types.Struct:
+		return true
+	}
+	return false
+}
+
+// leafCount: number of scalar leaves of a value of type t (0 if it contains reference types)
+func leafCount(t types.Type) int {
+	switch u := t.Underlying().(type) {
+	case *types.Array:
+		return int(u.Len()) * leafCount(u.Elem())
+	case *types.Struct:
+		n := 0
+		for i := 0; i < u.NumFields(); i++ {
+			c := leafCount(u.Field(i).Type())
+			if c == 0 {
+				return 0
+			}
+			n += c
+		}
+		return n
+	case *types.Basic:
+		if _, _, ok := intInfo(t); ok || isBool(t) {
+			return 1
+		}
+	}
+	return 0
+}
+
+func useFlat(u *types.Array) bool {
+	if !flatArrays {
+		return false
+	}
+	if u.Len() >= flatThreshold && isAggType(u.Elem()) && leafCount(u.Elem()) > 0 {
+		return true
+	}
+	// long arrays of scalars (scratch buffers): plain symbolic arrays
+	return u.Len() >= 512 && leafCount(u.Elem()) == 1
+}
+
+// flattenCell lists the scalar leaves of an aggregate cell in layout order.
+func flattenCell(c Cell, out *[]*Term) {
+	switch x := c.(type) {
+	case *ArrCell:
+		for _, e := range x.Elems {
+			flattenCell(e, out)
+		}
+	case *StructCell:
+		for _, f := range x.Fields {
+			flattenCell(f, out)
+		}
+	case AggV:
+		flattenCell(x.C, out)
+	case *Term:
+		*out = append(*out, x)
+	default:
+		fail("flattenCell: unsupported cell %T", c)
+	}
+}
+
+// buildCell builds an aggregate cell of type t from leaves leaf(0), leaf(1), ...
+func buildCell(t types.Type, next *int, leaf func(i int, lt types.Type) *Term) Cell {
+	switch u := t.Underlying().(type) {
+	case *types.Array:
+		es := make([]Cell, u.Len())
+		for i := range es {
+			es[i] = buildCell(u.Elem(), next, leaf)
+		}
+		return &ArrCell{Elems: es}
+	case *types.Struct:
+		fs := make([]Cell, u.NumFields())
+		for i := range fs {
+			fs[i] = buildCell(u.Field(i).Type(), next, leaf)
+		}
+		return &StructCell{Fields: fs}
+	}
+	v := leaf(*next, t)
+	*next++
+	return v
+}
+
+const zeroArrPrefix = "zeroarr"
+
 func zeroCell(t types.Type) Cell {
 	switch u := t.Underlying().(type) {
 	case *types.Array:
+		if useFlat(u) {
+			return &SymArrCell{Arr: FreshVar(zeroArrPrefix, SArr), N: ConstI(u.Len()), Elem: u.Elem()}
+		}
 		n := int(u.Len())
 		es := make([]Cell, n)
 		z := zeroCell(u.Elem())
@@ -205,6 +299,9 @@ const symArrThreshold = 1 << 20
 func freshCell(t types.Type, prefix string, facts *[]*Term) Cell {
 	switch u := t.Underlying().(type) {
 	case *types.Array:
+		if useFlat(u) {
+			return &SymArrCell{Arr: FreshVar(prefix+".flat", SArr), N: ConstI(u.Len()), Elem: u.Elem()}
+		}
 		n := int(u.Len())
 		es := make([]Cell, n)
 		for i := range es {
@@ -367,6 +464,36 @@ func pathRel(a, b PtrV) int {
 		return 0
 	}
 	return 2
+}
+
+// pathDistinctCond: for two pointers into the same region whose paths agree up to a pair of
+// symbolic indices, the condition under which they designate different elements (nil: not of that shape).
+func pathDistinctCond(a, b PtrV) *Term {
+	if a.R != b.R {
+		return nil
+	}
+	n := len(a.Path)
+	if len(b.Path) < n {
+		n = len(b.Path)
+	}
+	for i := 0; i < n; i++ {
+		pa, pb := a.Path[i], b.Path[i]
+		if pa.Idx == nil && pb.Idx == nil {
+			if pa.Field != pb.Field {
+				return nil
+			}
+			continue
+		}
+		if pa.Idx != nil && pb.Idx != nil {
+			e := Eq(pa.Idx, pb.Idx)
+			if e.IsTrue() {
+				continue
+			}
+			return Not(e)
+		}
+		return nil
+	}
+	return nil
 }
 
 func (p PtrV) String() string {
